@@ -37,7 +37,7 @@ def _task(args):
         import traceback
         tr, err = [], f"machinery: {type(e).__name__}: {e}\n{traceback.format_exc()[-1500:]}"
     acts = [a for (_, a, _) in path]
-    return dict(key=key, idx=idx, acts=acts, nsteps=len(tr), found=r.found, facts=r.facts, err=err,
+    return dict(key=key, idx=idx, acts=acts, nsteps=len(tr), found=r.found, found_at=r.found_at, facts=r.facts, err=err,
                 path=[[a, v] for (_, a, v) in path])
 
 
@@ -94,8 +94,8 @@ def run(rep, worlds, max_paths=None, maxlen=12, seed=0, procs=16, tlc_kw=None, e
                         path=out["path"][:max(out["nsteps"], 1) + 1] if out["found"] else None)
             if len(rep.samples) < 3 and not out["found"]:
                 rep.sample(dict(world=scen["world"], actions=[a["kind"] + (f"({a['arg']})" if "arg" in a else "") for a in out["acts"]]))
-            for (prop, clause, what) in out["found"]:
-                findings.append((prop, clause, what, scen))
+            for (prop, clause, what), at in zip(out["found"], out["found_at"]):
+                findings.append((prop, clause, what, dict(scen, action=at) if at else scen))
     rep.extra["replay_wall_s"] = round(time.time() - t0, 1)
     return findings
 
